@@ -487,9 +487,14 @@ class VGen:
         return tuple(v)
 
 
-def gen_case(rng, nitems, nobj=None, maxstr=300, dangling=0.04, values=0.2, modes=0.6):
+def gen_case(rng, nitems, nobj=None, maxstr=300, dangling=0.04, values=0.2, modes=0.6, poly_scripted=True):
     """a typed write sequence over primitives, strings, raw blocks and an object graph of `nobj`
-    listeners whose plain / safe pointers are written before and after (and inside) their targets"""
+    listeners whose plain / safe pointers are written before and after (and inside) their targets.
+    poly_scripted=False (C11): the polymorphic ReadObject() is used for Listener records only.  The model lets the
+    object that ReadObject() creates read the body the host scripted, whatever class the (possibly damaged) record
+    names; with the harness's classes that is true when the host expects a table-less Listener (a created VNode/VNodf
+    runs the host's script `p u8`, a created Listener reads its flag byte) but not when it expects a scripted body and a
+    damaged stream makes ReadObject() create a real Listener"""
     nobj = rng.randint(0, 30) if nobj is None else nobj
     labels = list(range(1, nobj + 1))
     cls = {l: rng.choice(CLASSES) for l in labels}
@@ -526,6 +531,8 @@ def gen_case(rng, nitems, nobj=None, maxstr=300, dangling=0.04, values=0.2, mode
 
     def obj(l, depth):
         kind = rng.choice(OBJ) if rng.random() < modes else "obj"
+        if kind == "objp" and not poly_scripted and cls[l] != b"Listener":
+            kind = "objt"
         if cls[l] == b"Listener":
             return (kind, l, cls[l], [("p", "u8", 0)])
         body = []
